@@ -3,7 +3,7 @@
    (XsltEventsDefs.v: pending-start-tag event machine of XSLTEngineImpl; XsltVarsDefs.v: VariablesStack
    and its call-site protocol). Nothing but statements closed by [exact] and their assumptions. *)
 From Coq Require Import List NArith Bool.
-Require Import XV.XsltEventsDefs XV.XsltEventsModel XV.XsltVarsDefs XV.XsltVarsModel.
+Require Import XV.XsltEventsDefs XV.XsltEventsModel XV.XsltVarsDefs XV.XsltVarsModel XV.XsltFactsModel.
 Import ListNotations.
 
 (* ---- (a) pending-start-tag machine ---- *)
@@ -115,3 +115,9 @@ Example varstack_example :
           (5, Some 7); (4, Some 9); (3, Some 30); (6, Some 600); (6, Some 60)]%N.
 Proof. vm_compute. split; reflexivity. Qed.
 Print Assumptions varstack_example.
+
+(* ---- tie: the source still has the structure the two models were written for (GenXslt.v is
+   regenerated from /repo on every run by translator/gen_xslt.py) ---- *)
+Theorem source_facts_as_modelled : XV.XsltFactsModel.facts_as_modelled = true.
+Proof. exact XV.XsltFactsModel.facts_as_modelled_true. Qed.
+Print Assumptions source_facts_as_modelled.
